@@ -269,7 +269,12 @@ StepCtl(M, c, f, ins) ==
           [] op = "memory.size" ->
               SetTop(c, [next EXCEPT !.stack = f.stack \o <<V("i32", OfNat(MemOf(c, f.inst).pages, KOf("i32")))>>])
           [] op = "memory.grow" ->
-              LET g == Grow(MemOf(c, f.inst), Peek(f, 0).b)
+              \* memory.grow may fail although the limits would allow it: the host has no memory to give.  A scenario says so with
+              \* memory.hostfull (the binding then makes the host's allocator refuse every request): every grow returns -1 and leaves the
+              \* memory - size and contents - as it is
+              LET m0 == MemOf(c, f.inst)
+                  hostfull == "hostfull" \in DOMAIN M.memory /\ M.memory.hostfull
+                  g == IF hostfull THEN [mem |-> m0, r |-> Ones(KOf("i32"))] ELSE Grow(m0, Peek(f, 0).b)
               IN  SetTop(SetMem(c, f.inst, g.mem),
                          [next EXCEPT !.stack = DropLast(f.stack, 1) \o <<V("i32", g.r)>>])
           [] op = "memory.fill" ->
